@@ -285,7 +285,7 @@ def offset_provenance(ct: Container, rep, rule="offset-provenance"):
                          construct=f"{norm(head(stmt))} :: {norm(expr)}")
         else:
             # geometry only: table end; correct only when nothing (live) remains
-            implies_empty = any(g.replace(" ", "") in (f"notself.{ct.entries_attr}", f"len(self.{ct.entries_attr})==0", f"notlen(self.{ct.entries_attr})") for g in guard) and after_remove
+            implies_empty = any(_says_empty(g, f"self.{ct.entries_attr}") for g in guard) and after_remove
             k = ct.slot_index(expr, ff)
             table_end = k is not None and k == Poly.atom("self.nEntries")
             if implies_empty and not table_end:
@@ -297,6 +297,32 @@ def offset_provenance(ct: Container, rep, rule="offset-provenance"):
                 rep.fail(rule, MOD(ct), fq, stmt, f"free-slot offset {desc} is the end of the table, which is end of data only when no live block remains; the guard does not imply that",
                          construct=f"{norm(head(stmt))} :: {norm(expr)}")
     rep.floor(rule, n, 1)
+
+
+def _says_empty(guard_text: str, table: str):
+    """does the guard (text of a test, possibly prefixed by `not `) state that the table is empty?"""
+    pol = True
+    g = guard_text.strip()
+    try:
+        t = ast.parse(g, mode="eval").body
+    except SyntaxError:
+        return False
+    while isinstance(t, ast.UnaryOp) and isinstance(t.op, ast.Not):
+        t, pol = t.operand, not pol
+    tt = norm(t).replace(" ", "")
+    T = table.replace(" ", "")
+    nonempty = None
+    if tt in (T, f"len({T})", f"bool({T})"):
+        nonempty = True
+    elif isinstance(t, ast.Compare) and len(t.ops) == 1 and norm(t.left).replace(" ", "") == f"len({T})" and isinstance(t.comparators[0], ast.Constant):
+        k, op = t.comparators[0].value, t.ops[0]
+        if (k == 0 and isinstance(op, (ast.Gt, ast.NotEq))) or (k == 1 and isinstance(op, ast.GtE)):
+            nonempty = True
+        elif (k == 0 and isinstance(op, (ast.Eq, ast.LtE))) or (k == 1 and isinstance(op, ast.Lt)):
+            nonempty = False
+    if nonempty is None:
+        return False
+    return (not nonempty) if pol else nonempty
 
 
 def enclosing_tests(fn, target):
@@ -470,9 +496,11 @@ def repoint_later(ct: Container, rep, rule="repoint-later-slots"):
     # value: end of the new block
     new_entry = norm(stores[0].value)
     want_v = to_poly(ast.parse(f"{new_entry}.offset + {new_entry}.size", mode="eval").body, ct.ctx)
+    want_x = to_poly(ff.expand_fresh(ast.parse(f"{new_entry}.offset + {new_entry}.size", mode="eval").body), ct.ctx)
     for e in fa:
         got = to_poly(ff.resolve(e.value), ct.ctx)
-        if e.op == "=" and got == want_v:
+        got_x = to_poly(ff.expand_fresh(e.value), ct.ctx)
+        if e.op == "=" and (got == want_v or (got_x is not None and got_x == want_x)):
             rep.ok(rule, f"{fq}: later slots point at {new_entry}.offset + {new_entry}.size (end of data)", nontrivial=True)
         else:
             rep.fail(rule, MOD(ct), fq, e.stmt, f"later slot offset is `{norm(e.value)}` (op {e.op}), not the end of the new block `{new_entry}.offset + {new_entry}.size`")
